@@ -229,6 +229,20 @@ class Own:
                 m[k] = v
         return m, ex
 
+    def bind_iteration(self, target, iter_expr, itv):
+        """bind a loop / comprehension target to the elements of iter_expr; zip(...) and enumerate(...) are bound
+        position-wise so that a fresh list zipped with an operand-owned one stays fresh"""
+        if isinstance(iter_expr, ast.Call) and isinstance(iter_expr.func, ast.Name) and isinstance(target, (ast.Tuple, ast.List)):
+            if iter_expr.func.id == "zip" and len(iter_expr.args) == len(target.elts) and not iter_expr.keywords:
+                for t, a in zip(target.elts, iter_expr.args):
+                    self.bind_iteration(t, a, self.expr(a))
+                return
+            if iter_expr.func.id == "enumerate" and len(target.elts) == 2 and iter_expr.args:
+                self.store(target.elts[0], EMPTY)
+                self.bind_iteration(target.elts[1], iter_expr.args[0], self.expr(iter_expr.args[0]))
+                return
+        self.store(target, elem(itv) if itv != EMPTY else EMPTY)
+
     # ---------- statements (flow sensitive)
     def block(self, body):
         for st in body:
@@ -306,7 +320,7 @@ class Own:
             it = self.expr(st.iter)
             for _ in range(3):
                 before = dict(self.env)
-                self.store(st.target, elem(it) if it != EMPTY else EMPTY)
+                self.bind_iteration(st.target, st.iter, it)
                 self.block(st.body)
                 self.env = self.joinenv(before, self.env)
             self.block(st.orelse)
@@ -400,7 +414,7 @@ class Own:
             saved = dict(self.env)
             for g in e.generators:
                 it = self.expr(g.iter)
-                self.store(g.target, elem(it) if it != EMPTY else EMPTY)
+                self.bind_iteration(g.target, g.iter, it)
                 for c in g.ifs:
                     self.expr(c)
             r = box(self.expr(e.elt))
